@@ -8,6 +8,7 @@ pub mod c07;
 pub mod c08;
 pub mod c09;
 pub mod c10;
+pub mod c16;
 pub mod c17;
 
 /// Print the reference model's and the real parser's view of one case (used by `replay`).
